@@ -142,7 +142,7 @@ func runC10Cmd(c c10Cmd) error {
 	}
 	out := filepath.Join(dir, "report.json")
 	var rerr error
-	if perr := vh.Try(func() { rerr = report([]string{in}, "json", out, every, "") }); perr != nil {
+	if perr := vh.Try(func() { rerr = runReport([]string{in}, "json", out, every, "") }); perr != nil {
 		return fmt.Errorf("vegeta report panics: %v", perr)
 	}
 	if rerr != nil {
@@ -173,7 +173,7 @@ func runC10Cmd(c c10Cmd) error {
 	}
 	// the text report of the same file shows the same request count and status codes
 	outT := filepath.Join(dir, "report.txt")
-	if err := report([]string{in}, "text", outT, 0, ""); err != nil {
+	if err := runReport([]string{in}, "text", outT, 0, ""); err != nil {
 		return fmt.Errorf("vegeta report -type=text: %v", err)
 	}
 	tb, _ := os.ReadFile(outT)
